@@ -69,21 +69,61 @@ type structKey struct {
 	B string
 }
 
+// pointer keys: a pointer is a legal map key whatever it points to - also a struct with a slice in it, a map, a slice, a func
+// (seeded C09y guarded Store / Load / Delete with a "hashable?" test that looked THROUGH pointers and ignored such keys).
+// Made once, at start-up: the clients only read the tables.
+type sliceHolder struct {
+	names []string
+	n     int
+}
+
+type mapHolder struct {
+	id int
+	m  map[string]int
+}
+
+type funcHolder struct {
+	id int
+	f  func()
+}
+
+var ptrKeysA, ptrKeysB [1024]interface{}
+
+func init() {
+	// every pointee carries a number, so that the simulator's content-based order of map keys tells the keys apart
+	for i := range ptrKeysA {
+		ptrKeysA[i] = &sliceHolder{names: []string{"a"}, n: i}
+		switch i % 3 {
+		case 0:
+			ptrKeysB[i] = &mapHolder{id: i, m: map[string]int{"k": i}}
+		case 1:
+			pp := &sliceHolder{n: -i - 1}
+			ptrKeysB[i] = &pp // a pointer to a pointer to a struct with a slice
+		default:
+			ptrKeysB[i] = &funcHolder{id: i, f: func() {}}
+		}
+	}
+}
+
 func mixedKey(k int) interface{} {
-	switch k % 5 {
+	switch k % 7 {
 	case 0:
-		return fmt.Sprint(k / 5) // "0", "1", ...
+		return fmt.Sprint(k / 7) // "0", "1", ...
 	case 1:
-		return k / 5 // 0, 1, ... (same text as the strings above)
+		return k / 7 // 0, 1, ... (same text as the strings above)
 	case 2:
-		return structKey{k / 5, "x"}
+		return structKey{k / 7, "x"}
 	case 3:
-		return fmt.Sprint(structKey{k / 5, "x"}) // the text of the struct key
+		return fmt.Sprint(structKey{k / 7, "x"}) // the text of the struct key
+	case 5:
+		return ptrKeysA[(k/7)%len(ptrKeysA)]
+	case 6:
+		return ptrKeysB[(k/7)%len(ptrKeysB)]
 	}
 	if k == 4 {
 		return nil // the nil interface is a key like any other
 	}
-	return int64(k / 5) // same number as case 1, another type
+	return int64(k / 7) // same number as case 1, another type
 }
 
 // Typed values: the same text as a string, behind a String, an Error or a Format method.
